@@ -2,7 +2,7 @@
     Only the property theorems; models and proofs are in Infer/{Table,Unify}.v.
     The table is [{ unify; tvars; maxu }] — the three fields that [InferenceTable::rollback_to]
     restores; [relate] is [snapshot; unify; commit | rollback_to]. *)
-From Chalk Require Import Ir.Syntax Infer.Table Infer.Unify.
+From Chalk Require Import Ir.Syntax Infer.Table Infer.Unify Infer.Sym.
 
 (** Rolling back to a snapshot restores the table exactly, whatever was done in between. *)
 Theorem rollback_restores : forall t os, rollback_to (run_ops os t) (snapshot t) = t.
@@ -15,3 +15,16 @@ Theorem relate_fail_unchanged : forall adt_var fn_var fuel v a b t t',
 Proof. exact relate_fail_unchanged_lemma. Qed.
 Check relate_fail_unchanged : forall adt_var fn_var fuel v a b t t',
   relate adt_var fn_var fuel v a b t = (NoSol, t') -> t' = t.
+
+(** Failure is symmetric in the two arguments, on the fragment [sfrag] without fn pointers,
+    aliases and dyn (it contains the C14 fragment), for a table whose bound values are in the
+    fragment ([tfrag], preserved by every successful relate: Infer.Sym.relate_tfrag).  The
+    layer lemma [Infer.Sym.relate_mirror] is stronger: same resulting table, same goals up to
+    order, for every variance (with the variance inverted). *)
+Theorem relate_symmetric : forall adt_var fn_var fuel a b t,
+  sfrag a = true -> sfrag b = true -> tfrag t ->
+  (fst (relate adt_var fn_var fuel Invariant a b t) = NoSol <-> fst (relate adt_var fn_var fuel Invariant b a t) = NoSol).
+Proof. exact relate_symmetric_lemma. Qed.
+Check relate_symmetric : forall adt_var fn_var fuel a b t,
+  sfrag a = true -> sfrag b = true -> tfrag t ->
+  (fst (relate adt_var fn_var fuel Invariant a b t) = NoSol <-> fst (relate adt_var fn_var fuel Invariant b a t) = NoSol).
